@@ -131,3 +131,8 @@ pub fn set_env(key: &str, v: usize) {
 /// 2 = all permutations (natively a no-op: std randomises per table)
 #[inline(never)]
 pub fn hash_order(_mode: usize) {}
+/// diagnostic output of the native replay (no effect under mirsym)
+#[inline(never)]
+pub fn debug_str(label: &str, x: &str) {
+    eprintln!("DEBUG {}: {}", label, x);
+}
